@@ -3,7 +3,9 @@ import p_subfam as fam
 
 PID = "C04"
 MODELS = [("Subscribe.tla", "Subscribe_none.cfg", False), ("Subscribe.tla", "Subscribe_register_after_walk.cfg", True),
-          ("Subscribe.tla", "Subscribe_sync_before_walk.cfg", True), ("Subscribe.tla", "Subscribe_queue_values.cfg", True)]
+          ("Subscribe.tla", "Subscribe_sync_before_walk.cfg", True), ("Subscribe.tla", "Subscribe_queue_values.cfg", True),
+          # updates_only subscriptions: no walk, the sync marker queued before the registration (UOSyncFirst)
+          ("Subscribe.tla", "Subscribe_uo.cfg", False), ("Subscribe.tla", "Subscribe_uo_sync_after_register.cfg", True)]
 RULE = ("random scenarios on a real cache.Cache + subscribe.Server: 1-3 targets each with its own writer goroutine (updates, deletes, wildcard deletes, "
         "multi/atomic notifications, re-adds, Reset, lifecycle calls), 1-3 subscribers (STREAM incl. updates_only, some ONCE/POLL) over 1-2 subscription "
         "paths with globs, single target or '*', started at arbitrary moments in 1-3 phases, random delays at the hook points (registration, walk begin/end, "
